@@ -1,6 +1,7 @@
 package main
 
 import (
+	"go/types"
 	"fmt"
 	"go/ast"
 	"go/token"
@@ -354,5 +355,7 @@ func runR_C18(c *Ctx) {
 	// without the leaf-semantics rule: Equal's nil-blindness for []byte components is masked in mem by the hash, which
 	// separates nil from empty (checked on the real binary: both are evaluated, both results are right)
 	equalCoreRules(c, false)
+	// a user's Hash/Equal methods define the classes: which methods the generators find is part of the mechanism
+	g9Methods(c, methodSpec{"hash.hasHashMethod", "Hash", 0, 1, types.Invalid}, methodSpec{"equal.equalMethodInputParam", "Equal", 1, 1, types.Bool})
 	c.Rep.floor("R15", 30)
 }
